@@ -16,7 +16,7 @@ func init() {
 	register(&Rule{ID: "C13.DEF", Min: 18, Doc: "every fixed-key section reports keys outside its set at that key", Run: runC13Def})
 	register(&Rule{ID: "C13.CONT", Min: 25, Doc: "no return/break inside a key loop: a bad key never suppresses its siblings", Run: runC13Cont})
 	register(&Rule{ID: "C13.CASEARG", Min: 30, Doc: "fixed-key sections compare keys case-sensitively, name-keyed sections case-insensitively", Run: runC13CaseArg})
-	register(&Rule{ID: "C13.DUP", Min: 3, Doc: "parseMapping reports a repeated key before storing it, folding case iff the mapping is case-insensitive", Run: runC13Dup})
+	register(&Rule{ID: "C13.DUP", Min: 5, Doc: "parseMapping reports a repeated key before storing it, folding case iff the mapping is case-insensitive", Run: runC13Dup})
 	register(&Rule{ID: "C13.MAND", Min: 13, Doc: "every mandatory key is checked after the key loop, unconditionally (or only under the documented alternative)", Run: runC13Mand})
 	register(&Rule{ID: "C13.FIXEDLEN", Min: 1, Doc: "a mapping whose entries are accessed by constant index is checked to have exactly that many entries", Run: runC13FixedLen})
 }
@@ -202,6 +202,30 @@ func runC13Def(c *Ctx) {
 			})
 			return found
 		}
+		// reportsAlways: every run through the statement list reports the key: the report is one of its direct statements
+		// (or stands in both branches of an if), not nested under a condition, a loop or a switch of its own
+		var reportsAlways func(list []ast.Stmt) bool
+		reportsAlways = func(list []ast.Stmt) bool {
+			for _, st := range list {
+				switch x := st.(type) {
+				case *ast.ExprStmt:
+					if reports(x) {
+						return true
+					}
+				case *ast.BlockStmt:
+					if reportsAlways(x.List) {
+						return true
+					}
+				case *ast.IfStmt:
+					if els, ok := x.Else.(*ast.BlockStmt); ok && reportsAlways(x.Body.List) && reportsAlways(els.List) {
+						return true
+					}
+				case *ast.BranchStmt, *ast.ReturnStmt:
+					return false
+				}
+			}
+			return false
+		}
 		switch s := kl.dispatch.(type) {
 		case *ast.SwitchStmt:
 			var def *ast.CaseClause
@@ -221,6 +245,8 @@ func runC13Def(c *Ctx) {
 				} else {
 					c.bad(name, def.Pos(), "default clause does not report the key with unexpectedKey(<this loop's key>, ...)")
 				}
+			case !reportsAlways(def.Body):
+				c.bad(name, def.Pos(), "default clause reports the key only under a further condition: some keys outside the set are silently accepted")
 			default:
 				c.ok(name, s.Pos(), fmt.Sprintf("default clause reports keys outside {%s} at the key", strings.Join(kl.labels, ", ")))
 			}
@@ -236,6 +262,8 @@ func runC13Def(c *Ctx) {
 				c.ok(name, s.Pos(), w)
 			} else if other == nil || !reports(other) {
 				c.bad(name, s.Pos(), "the branch taken for keys other than "+strings.Join(kl.labels, ", ")+" does not report them with unexpectedKey")
+			} else if blk, isBlk := other.(*ast.BlockStmt); !isBlk || !reportsAlways(blk.List) {
+				c.bad(name, s.Pos(), "the branch taken for keys other than "+strings.Join(kl.labels, ", ")+" reports them only under a further condition")
 			} else {
 				c.ok(name, s.Pos(), "keys other than "+strings.Join(kl.labels, ", ")+" are reported at the key")
 			}
@@ -334,6 +362,66 @@ func earlyExit(p *Prog, body *ast.BlockStmt, label string) string {
 	return exit
 }
 
+// skipBeforeDispatch: a `continue` of the key loop in the statements that precede the dispatch over the key, in a statement
+// that does not report: the entry is dropped without having been looked at. "" if there is none.
+func skipBeforeDispatch(p *Prog, info *types.Info, kl *keyLoop) string {
+	if kl.dispatch == nil {
+		return ""
+	}
+	for _, st := range kl.rs.Body.List {
+		if st == kl.dispatch {
+			break
+		}
+		reports := false
+		ast.Inspect(st, func(x ast.Node) bool {
+			if call, ok := x.(*ast.CallExpr); ok {
+				if fn := calleeObj(info, call); fn != nil {
+					if n := shortFuncName(fn); strings.HasPrefix(n, "(*parser).error") || n == "(*parser).unexpectedKey" {
+						reports = true
+					}
+				}
+			}
+			return true
+		})
+		if reports {
+			continue
+		}
+		found := ""
+		var walk func(x ast.Node, inner bool)
+		walk = func(x ast.Node, inner bool) {
+			ast.Inspect(x, func(y ast.Node) bool {
+				if y == nil || found != "" {
+					return false
+				}
+				switch s := y.(type) {
+				case *ast.FuncLit:
+					return false
+				case *ast.BranchStmt:
+					if s.Tok == token.CONTINUE && ((s.Label == nil && !inner) || (s.Label != nil && kl.label != "" && s.Label.Name == kl.label)) {
+						found = "continue at " + p.Pos(s.Pos())
+					}
+				case *ast.ForStmt:
+					if y != x {
+						walk(s.Body, true)
+						return false
+					}
+				case *ast.RangeStmt:
+					if y != x {
+						walk(s.Body, true)
+						return false
+					}
+				}
+				return true
+			})
+		}
+		walk(st, false)
+		if found != "" {
+			return found
+		}
+	}
+	return ""
+}
+
 func runC13Cont(c *Ctx) {
 	info := c.P.info()
 	occ := map[string]int{}
@@ -341,6 +429,8 @@ func runC13Cont(c *Ctx) {
 		name := kl.name(info, occ)
 		if e := earlyExit(c.P, kl.rs.Body, kl.label); e != "" {
 			c.bad(name, kl.rs.Pos(), "the key loop can stop early ("+e+"): the remaining keys of the mapping are neither parsed nor checked")
+		} else if e := skipBeforeDispatch(c.P, info, kl); e != "" {
+			c.bad(name, kl.rs.Pos(), "a key can be passed over before it is compared with the key set ("+e+"): such a key is neither parsed nor reported when it is foreign")
 		} else {
 			c.ok(name, kl.rs.Pos(), "every key of the mapping is visited")
 		}
@@ -504,6 +594,60 @@ func runC13Dup(c *Ctx) {
 			c.bad("(*parser).parseMapping|duplicate test", leaked.Pos(), "a key already seen is reported but the iteration goes on to store it (at "+c.P.Pos(leaked.Pos())+"): the duplicate entry is kept or replaces the remembered position")
 		default:
 			c.ok("(*parser).parseMapping|duplicate test", lookup.Pos(), "a key already seen is reported and neither the append nor the store into the set is reachable before the next key")
+		}
+		// the key loop goes on after a duplicate (and after a key that is no string): it is left only where its header says
+		// that no key remains, so a repeated key cannot hide the keys that follow it
+		if head != nil {
+			if ex := loopSideExit(head); ex != nil {
+				c.bad("(*parser).parseMapping|every key visited", exitPos(ex), "the loop over the keys of the mapping is left from inside its body (break or return at "+c.P.Pos(exitPos(ex))+"): the keys that follow are neither checked for repetition nor handed to the section parser")
+			} else {
+				c.ok("(*parser).parseMapping|every key visited", head.Instrs[0].Pos(), "the loop over the keys is left only at its header")
+			}
+		}
+		// reported at the repetition: the position handed to the report is that of the key just read, not the remembered one
+		var keyCall *ssa.Call
+		eachInstr(fn, func(_ *ssa.BasicBlock, _ int, in ssa.Instruction) {
+			if call, ok := in.(*ssa.Call); ok && keyCall == nil {
+				if g := staticCallee(&call.Call); g != nil && FuncName(g) == "(*parser).parseString" && computedFrom(lookup.Index, call, 6) {
+					keyCall = call
+				}
+			}
+		})
+		posBad, posN := "", 0
+		for b := range sameIter {
+			if !(b == seen || seen.Dominates(b)) {
+				continue
+			}
+			for _, in := range b.Instrs {
+				call, ok := in.(*ssa.Call)
+				if !ok {
+					continue
+				}
+				g := staticCallee(&call.Call)
+				if g == nil || !strings.HasPrefix(FuncName(g), "(*parser).error") || len(call.Call.Args) < 2 {
+					continue
+				}
+				posN++
+				arg := call.Call.Args[1]
+				f, base := fieldLoad(arg)
+				switch {
+				case keyCall == nil:
+					posBad = "the key that is looked up is not the result of parseString on the key node"
+				case f == "String.Pos" && base == ssa.Value(keyCall):
+				case len(keyCall.Call.Args) > 1 && arg == keyCall.Call.Args[1]:
+				case computedFrom(arg, lookup, 4):
+					posBad = "the report is placed at the remembered position of the first definition, not at the repeated key"
+				default:
+					posBad = "the position of the report is not that of the key just read"
+				}
+			}
+		}
+		if posN > 0 {
+			if posBad != "" {
+				c.bad("(*parser).parseMapping|reported at the repetition", lookup.Pos(), posBad)
+			} else {
+				c.ok("(*parser).parseMapping|reported at the repetition", lookup.Pos(), "the duplicate is reported at the Pos of the key read in this iteration")
+			}
 		}
 		// every append and every store lies on the not-seen side of the test only
 		after := len(apps) > 0 && len(stores) > 0 && seen != notSeen
@@ -954,6 +1098,21 @@ func runC13Mand(c *Ctx) {
 				}
 			}
 			if bad == "" {
+				// the record that is tested belongs to this section alone: it is not declared outside a loop that encloses
+				// the key loop (one flag shared by all inputs would be satisfied by the first of them)
+				var tested ast.Node
+				switch s := h.n.(type) {
+				case *ast.IfStmt:
+					tested = s.Cond
+					if _, isAssert := s.Init.(*ast.AssignStmt); isAssert && !mentions(s.Cond) {
+						tested = s.Init
+					}
+				case *ast.TypeSwitchStmt:
+					tested = s.Assign
+				}
+				bad = mandRecordCarried(p, info, kl, tested, assignedAny)
+			}
+			if bad == "" {
 				okHit = p.Pos(h.n.Pos())
 				break
 			}
@@ -966,6 +1125,87 @@ func runC13Mand(c *Ctx) {
 			c.bad(construct, kl.rs.Pos(), "the check for a missing "+mk.key+" exists but "+strings.Join(why, "; ")+": a section without "+mk.key+" can be accepted silently")
 		}
 	}
+}
+
+// mandRecordCarried: a variable behind one of the tested expressions is declared outside a loop that encloses the key loop
+// and is not assigned afresh between the head of that loop and the key loop: what an earlier section recorded is still there
+// when the next section is tested. "" if every tested record is created for the section.
+func mandRecordCarried(p *Prog, info *types.Info, kl *keyLoop, tested ast.Node, set map[string]bool) string {
+	if tested == nil {
+		return ""
+	}
+	bases := map[types.Object]string{}
+	ast.Inspect(tested, func(x ast.Node) bool {
+		ex, ok := x.(ast.Expr)
+		if !ok || !set[exprStr(ex)] {
+			return true
+		}
+		e := ast.Unparen(ex)
+		for {
+			switch y := e.(type) {
+			case *ast.SelectorExpr:
+				e = ast.Unparen(y.X)
+				continue
+			case *ast.StarExpr:
+				e = ast.Unparen(y.X)
+				continue
+			case *ast.IndexExpr:
+				e = ast.Unparen(y.X)
+				continue
+			}
+			break
+		}
+		if id, ok := e.(*ast.Ident); ok {
+			if obj, ok := info.ObjectOf(id).(*types.Var); ok && !obj.IsField() && obj.Parent() != obj.Pkg().Scope() {
+				bases[obj] = id.Name
+			}
+		}
+		return false
+	})
+	var out []string
+	for obj, name := range bases {
+		for i, par := range kl.parents {
+			var body *ast.BlockStmt
+			switch l := par.(type) {
+			case *ast.ForStmt:
+				body = l.Body
+			case *ast.RangeStmt:
+				body = l.Body
+			}
+			if body == nil || obj.Pos() >= par.Pos() {
+				continue
+			}
+			// assigned afresh on the way from the head of that loop to the key loop: a direct statement of a block that
+			// encloses the key loop, before it
+			fresh := false
+			for _, inner := range kl.parents[i+1:] {
+				blk, ok := inner.(*ast.BlockStmt)
+				if !ok {
+					continue
+				}
+				for _, st := range blk.List {
+					if st.Pos() >= kl.rs.Pos() {
+						break
+					}
+					if as, ok := st.(*ast.AssignStmt); ok {
+						for _, l := range as.Lhs {
+							if id, ok := ast.Unparen(l).(*ast.Ident); ok && info.ObjectOf(id) == types.Object(obj) {
+								fresh = true
+							}
+						}
+					}
+				}
+			}
+			if !fresh {
+				out = append(out, fmt.Sprintf("`%s`, which it tests, is declared outside the loop at %s that encloses the key loop and is not assigned afresh for each section: once one section has recorded the key, the following ones are not tested", name, p.Pos(par.Pos())))
+			}
+		}
+	}
+	sort.Strings(out)
+	if len(out) > 0 {
+		return out[0]
+	}
+	return ""
 }
 
 // tagCompare: cond is `<tag> == "lit"` (eq) or `<tag> != "lit"`.
